@@ -47,9 +47,18 @@ def h_transpose(B, cls="EOF", n=4, p=4, rot=None, order=("lon", "time", "lat")):
     _cmp(B, f"transpose to {order}", m1, m2)
 
 
-def h_permute_features(B, cls="EOF", n=4, p=3, perm=(2, 0, 1), rot=None, weights=False):
+def h_permute_features(B, cls="EOF", n=4, p=3, perm=(2, 0, 1), rot=None, weights=False, dipole=False):
     cplx = cls == "ComplexEOF"
-    X = da2d(B, "x", n, p, cplx)
+    if dipole:
+        # same symbolic generality (a fixed matrix plus an arbitrary perturbation of every entry), but the WITNESS is a see-saw whose two
+        # poles differ by 1e-7 relative: the leading mode has two extreme loadings of opposite sign and almost equal magnitude
+        t = np.array([1.0, -2.0, 0.5, 0.5, 1.5, -1.5][:n])
+        u = np.array([0.3, 0.1, -0.5, 0.1, -0.2, 0.2][:n]) * 0.2
+        X0 = np.stack([t, -(1 + 1e-7) * t, u] + [0.1 * u * (j + 2) for j in range(p - 3)], axis=1)
+        E = B.array((n, p), "x", lo=-1e-10, hi=1e-10)
+        X = xr.DataArray(X0 + E, dims=("time", "x"), coords={"time": list(range(n)), "x": XS[:p]}, name="v_x")
+    else:
+        X = da2d(B, "x", n, p, cplx)
     w = None
     if weights:
         # one weights object, labelled by the feature coordinate, for both layouts of the data
@@ -198,6 +207,7 @@ def configs(tier):
     add("h_transpose", "EOF|transpose|order=lat,lon,time", order=("lat", "lon", "time"))
     add("h_permute_features", "EOFRotator|permute features", rot={"n_modes": 2, "power": 1})
     add("h_permute_features", "EOF|permute features|weights labelled by coordinate", weights=True)
+    add("h_permute_features", "EOF|permute features|witness: see-saw with poles differing by 1e-7", perm=(1, 0, 2), dipole=True)
     add("h_reverse_axis", "EOF|3d|lat stored north-to-south", axis="lat")
     add("h_list_item_reversed", "EOF|list|second item stores the samples in reverse order", which=1)
     add("h_list_item_reversed", "EOF|list|first item stores the samples in reverse order", which=0)
